@@ -586,7 +586,10 @@ class Heap:
             import multiprocessing as mp
             global _WORKER_HEAP
             _WORKER_HEAP = self
-            pool = mp.get_context("fork").Pool(jobs)
+            try:
+                pool = mp.get_context("fork").Pool(jobs)
+            except (OSError, ValueError):
+                pool = None         # no worker processes available here: explore serially
         try:
             for d in range(depth + 1):
                 if not level:
